@@ -244,11 +244,22 @@ def check_btsstring(size, s):
     except UnicodeEncodeError:
         ok, encodable, enc = False, False, None
     rep = dict(size=size, string=s)
+    import io as _io
     try:
         w = BTSString.write(size, s)
     except ValueError:
         if ok:
             fails.append(_fail("C13.refused", "BTSString", f"valid {len(s)}-char string refused for width {size}", rep))
+        # the stream variant refuses as well and writes nothing before it does
+        f = _io.BytesIO()
+        f.write(b"PREFIX")
+        try:
+            BTSString.bwrite(f, size, s)
+            fails.append(_fail("C13.accepted", "BTSString", f"bwrite accepted a string that write refuses for width {size}", rep))
+        except Exception:
+            pass
+        if f.getvalue() != b"PREFIX":
+            fails.append(_fail("C13.accepted", "BTSString", f"bwrite refused the string for width {size} but {len(f.getvalue()) - 6} bytes of it were written first", rep))
         return fails
     except Exception as e:
         return [_fail("C13.exc", "BTSString", f"write raised {e!r} (expected ValueError or success)", rep)]
@@ -262,6 +273,17 @@ def check_btsstring(size, s):
         fails.append(_fail("C13.width", "BTSString", f"wrote {len(w)} bytes for width {size}", rep))
     if w[:len(enc)] != enc or any(w[len(enc):]):
         fails.append(_fail("C13.bytes", "BTSString", "not text + NUL + zero padding", rep))
+    try:
+        f = _io.BytesIO()
+        f.write(b"PREFIX")
+        BTSString.bwrite(f, size, s)
+        if f.getvalue() != b"PREFIX" + w:
+            fails.append(_fail("C13.bytes", "BTSString", f"bwrite wrote {len(f.getvalue()) - 6} bytes that differ from write's {len(w)}", rep))
+        f2 = _io.BytesIO(w + b"NEXT")
+        if BTSString.bread(f2, size) != s or f2.read() != b"NEXT":
+            fails.append(_fail("C13.roundtrip", "BTSString", "bread does not return the string / does not consume exactly the field", rep))
+    except Exception as e:
+        fails.append(_fail("C13.exc", "BTSString", f"bwrite / bread raised {e!r} on a valid string", rep))
     try:
         back = BTSString.read(size, w)
         if back != s:
